@@ -17,6 +17,9 @@ from pyvc.ext import effect, ext_class, field
 EVENT = ext_class(
     "event",
     fields={"flag": T.bool},
+    # written only by start_ezsp / stop_ezsp (bring-up, close); treated as stable across a suspension of
+    # the bring-up coroutines (a concurrent close only makes later commands raise, which their contracts allow)
+    stable_fields=("flag",),
     set=effect(sets={"flag": True}),
     clear=effect(sets={"flag": False}),
     is_set=field("flag"),
@@ -163,7 +166,7 @@ def _(c):
     # "the EZSP layer is stopped so that new commands raise immediately and write nothing to the port"
     c.raises("not_running", EzspError)
     c.raises("timeout", TimeoutError)
-    c.raises("no_protocol", AttributeError)
+    c.raises("no_protocol", AttributeError, when=lambda self: self._protocol is None)
     c.raises("cancelled", asyncio.CancelledError)
     c.ensures(
         "post.stopped_layer_refuses_without_effect",
@@ -175,3 +178,258 @@ def _(c):
     )
     c.ensures("post.returns_only_when_running", lambda self: old(self._ezsp_event.is_set()))
     c.modifies()
+
+
+# ---------------------------------------------------------------------------
+# bring-up and version negotiation (C09)
+# ---------------------------------------------------------------------------
+def handler_class_for(version):
+    """the statement: 'its own command tables for supported versions, the newest known tables for newer ones'"""
+    return ezsp.EZSP._BY_VERSION[version] if version in ezsp.EZSP._BY_VERSION else ezsp.EZSP._BY_VERSION[max(ezsp.EZSP._BY_VERSION)]
+
+
+def _command_result_ez(I, b):
+    from pyvc import ncp
+    from pyvc.values import SObj, SOpt
+
+    name = b["name"]
+    proto = b["self"].fields.get("_protocol")
+    if isinstance(proto, SOpt):
+        proto = proto.value
+    cls = proto.cls if isinstance(proto, SObj) and isinstance(proto.cls, type) else v4.EZSPv4
+    if isinstance(name, str) and name in cls.COMMANDS:
+        return ncp.response_of(I, cls, name)
+    return T.opaque.fresh(I, "response")
+
+
+from pyvc.contracts import REGISTRY as _REG
+
+_REG.contracts["bellows.ezsp.EZSP._command"].returns_fn = _command_result_ez
+
+
+def _command_pre_call_ez(I, b):
+    """unknown command name / arguments that do not fit the live tx schema of the installed handler"""
+    from pyvc import ncp
+    from pyvc.values import SObj, SOpt
+
+    proto = b["self"].fields.get("_protocol")
+    if isinstance(proto, SOpt):
+        proto = proto.value
+    name = b["name"]
+    if isinstance(proto, SObj) and isinstance(proto.cls, type) and isinstance(name, str):
+        ncp.check_request(I, proto.cls, name, list(b.get("args", ())), dict(b.get("kwargs", {})))
+
+
+_REG.contracts["bellows.ezsp.EZSP._command"].pre_call = _command_pre_call_ez
+
+EZ_BRINGUP = ClassSpec(
+    "bellows.ezsp.EZSP",
+    fields=dict(EZ.fields),
+    invariants=[],
+    # during bring-up the handler and the version are written only by the bring-up task itself
+    interference=["_callbacks"],
+)
+
+
+@contract("bellows.ezsp.EZSP.is_tcp_serial_port", props=["C09"])
+def _(c):
+    c.self(EZ_BRINGUP)
+    c.trusted = True  # pure parsing of the configured device path (urllib)
+    c.returns(T.bool)
+    c.modifies()
+
+
+@contract("bellows.ezsp.EZSP._switch_protocol_version", props=["C09"])
+def _(c):
+    c.self(EZ_BRINGUP)
+    c.effect_name = "ezsp.switch_protocol_version"
+    c.arg("version", T.range(4, 255))
+    # "adopts the version the NCP reports - its own command tables for supported versions, the newest
+    #  known tables for newer ones"
+    c.ensures("post.version_recorded", lambda self, version: self._ezsp_version == version)
+    c.ensures(
+        "post.handler_tables",
+        lambda self, version: self._protocol is not None
+        and all(implies(version == v, type(self._protocol) is k) for v, k in ezsp.EZSP._BY_VERSION.items())
+        and implies(version not in ezsp.EZSP._BY_VERSION, type(self._protocol) is handler_class_for(255)),
+    )
+    c.ensures(
+        "post.handler_wired_to_this_link",
+        lambda self: self._protocol._gw is self._gw and fresh_handler_state(self._protocol),
+    )
+    c.modifies("self._ezsp_version", "self._protocol")
+
+
+def _switch_post_call(I, b):
+    """post-state of _switch_protocol_version at call sites, as established by its own proof
+    (post.version_recorded, post.handler_tables, post.handler_wired_to_this_link)"""
+    import z3
+
+    from pyvc.interp import int_term
+    from pyvc.values import SObj
+
+    so, version = b["self"], b["version"]
+    table = sorted(ezsp.EZSP._BY_VERSION.items())
+    vt = int_term(version)
+    conds = [vt == v for v, _k in table] + [z3.And([vt != v for v, _k in table])]
+    k = I.ctx.choose_feasible(conds)
+    cls = table[k][1] if k < len(table) else handler_class_for(255)
+    so.fields["_protocol"] = SObj(cls, {"_gw": so.fields.get("_gw"), "_seq": 0, "_awaiting": {}, "tc_policy": 0})
+    so.fields["_ezsp_version"] = version
+
+
+_REG.contracts["bellows.ezsp.EZSP._switch_protocol_version"].post_call = _switch_post_call
+
+
+def fresh_handler_state(p):
+    return p._seq == 0 and p._awaiting == {}
+
+
+@contract("bellows.ezsp.EZSP.reset", props=["C09", "C10"])
+def _(c):
+    c.self(EZ_BRINGUP)
+    c.effect_name = "ezsp.reset"
+    c.requires("pre.connected", lambda self: self._gw is not None)
+    c.raises("timeout", TimeoutError)
+    c.raises("link", ConnectionResetError)
+    c.raises("cancelled", asyncio.CancelledError)
+    # commands are refused while the ASH reset handshake is running
+    c.at_effect("gw.reset", "stopped_before_reset", lambda self: not self._ezsp_event.is_set())
+    c.ensures("post.one_handshake", lambda fx: len([r for r in fx if r[0] == "gw.reset"]) <= 1, on="any")
+    # "After every later reset, framing falls back to the legacy format until negotiation is repeated"
+    c.ensures(
+        "post.legacy_handler_after_reset",
+        lambda self: self._protocol is not None
+        and type(self._protocol) is v4.EZSPv4
+        and self._ezsp_version == 4
+        and self._ezsp_event.is_set(),
+    )
+    c.ensures(
+        "post.handshake_completed_first",
+        lambda fx: [r[2] for r in fx if r[0] == "await" and r[1] == "gw.reset"] == ["return"],
+    )
+    c.ensures("post.stays_stopped_on_failure", lambda self: not self._ezsp_event.is_set(), on="raise")
+    c.modifies("self._ezsp_version", "self._protocol")
+
+
+_REG.contracts["bellows.ezsp.EZSP.reset"].post_call = lambda I, b: _switch_post_call(I, {"self": b["self"], "version": 4})
+
+
+def commands_issued(fx):
+    return [(r[2], r[3]) for r in fx if r[0] == "call" and r[1] == "ezsp.command"]
+
+
+@contract("bellows.ezsp.EZSP.version", props=["C09"])
+def _(c):
+    c.self(EZ_BRINGUP)
+    c.effect_name = "ezsp.version"
+    c.requires("pre.handler_installed", lambda self: self._protocol is not None)
+    c.raises("timeout", TimeoutError)
+    c.raises("not_running", EzspError)
+    c.raises("cancelled", asyncio.CancelledError)
+    c.raises("no_protocol", AttributeError)
+    # first query: in whatever format is active, asking for the currently assumed version
+    c.ensures(
+        "post.first_query",
+        lambda self, fx: commands_issued(fx)[0] == (("version",), {"desiredProtocolVersion": old(self._ezsp_version)}),
+    )
+    # "adopts the version the NCP reports ... confirms it with a second query in the new format when it differs"
+    c.ensures(
+        "post.second_query_iff_version_differs",
+        lambda self, fx: len(commands_issued(fx)) == (2 if reported_version(fx) != old(self._ezsp_version) else 1)
+        and all(q == (("version",), {"desiredProtocolVersion": reported_version(fx)}) for q in commands_issued(fx)[1:]),
+    )
+    c.ensures(
+        "post.switch_between_the_queries",
+        lambda fx: implies(
+            len(commands_issued(fx)) == 2,
+            [r[0] for r in fx if r[0] == "ezsp.switch_protocol_version" or (r[0] == "call" and r[1] == "ezsp.command")]
+            == ["call", "ezsp.switch_protocol_version", "call"]
+            and [r[2] for r in fx if r[0] == "ezsp.switch_protocol_version"] == [(reported_version(fx),)],
+        ),
+    )
+    c.ensures("post.adopted", lambda self, fx: self._ezsp_version == reported_version(fx))
+    c.modifies("self._ezsp_version", "self._protocol")
+
+
+def reported_version(fx):
+    return [r[2] for r in fx if r[0] == "ret" and r[1] == "ezsp.command"][0][0]
+
+
+PHV4 = ClassSpec("bellows.ezsp.v4.EZSPv4", fields=dict(_seq=T.range(0, 255), _gw=T.opaque, tc_policy=T.int))
+
+
+@contract("bellows.ezsp.EZSP.startup_reset", props=["C09"])
+def _(c):
+    c.self(EZ_BRINGUP, _protocol=T.opt(T.obj(PHV4)))
+    # call sites (EZSP.initialize, ControllerApplication.connect): a freshly connected object
+    c.requires(
+        "pre.fresh_connected_object",
+        lambda self: self._gw is not None
+        and self._protocol is not None
+        and type(self._protocol) is v4.EZSPv4
+        and self._ezsp_version == 4
+        and not self._ezsp_event.is_set(),
+    )
+    c.raises("timeout", TimeoutError)
+    c.raises("link", ConnectionResetError)
+    c.raises("not_running", EzspError)
+    c.raises("cancelled", asyncio.CancelledError)
+    c.raises("no_protocol", AttributeError)
+    # "connecting performs the ASH reset handshake, sends the first version query in the legacy frame
+    #  format ...": every normal return went through version() last, after either our own reset or the
+    #  NCP's spontaneous start-up reset (socket paths)
+    c.ensures(
+        "post.reset_then_version",
+        lambda fx: [r[1] for r in fx if r[0] == "call" and r[1] in ("ezsp.reset", "ezsp.version")]
+        in (["ezsp.reset", "ezsp.version"], ["ezsp.version"]),
+    )
+    c.ensures(
+        "post.no_own_reset_only_if_startup_reset_seen",
+        lambda fx: implies(
+            [r[1] for r in fx if r[0] == "call" and r[1] == "ezsp.reset"] == [],
+            [r[2] for r in fx if r[0] == "await" and r[1] == "gw.wait_for_startup_reset"] == ["return"],
+        ),
+    )
+    # "spontaneous start-up reset seen, late or absent": the wait is bounded
+    c.ensures(
+        "post.startup_wait_bounded",
+        lambda fx: all(
+            [q[2][0] for q in fx[: fx.index(r)] if q[0] == "timeout.armed"] == [ezsp.NETWORK_COORDINATOR_STARTUP_RESET_WAIT]
+            for r in fx
+            if r[0] == "await" and r[1] == "gw.wait_for_startup_reset"
+        ),
+        on="any",
+    )
+    # the first version query is framed by the legacy handler: at the call of version() the handler is v4
+    c.ensures(
+        "post.legacy_handler_at_first_query",
+        lambda fx: all(r[2]["handler"] is v4.EZSPv4 and r[2]["version"] == 4 for r in fx if r[0] == "observe" and r[1] == "call:ezsp.version"),
+        on="any",
+    )
+    c.observe(lambda self: {"handler": type(self._protocol), "version": self._ezsp_version})
+    c.modifies("self._ezsp_version", "self._protocol")
+
+
+def _native_default_response(self_, args, kwargs):
+    """replay stub of an NCP command beyond the scripted part: a well-formed all-zero (success) response
+    built from the live rx schema of the installed handler"""
+    name = args[0]
+    proto = self_._protocol
+    rx = type(proto).COMMANDS[name][2]
+    out = []
+    for ty in rx.values():
+        try:
+            if isinstance(ty, type) and issubclass(ty, bytes):
+                out.append(ty(bytes(8)))
+                continue
+            out.append(ty(0))
+        except Exception:
+            try:
+                out.append(ty())
+            except Exception:
+                out.append(None)
+    return out
+
+
+_REG.contracts["bellows.ezsp.EZSP._command"].native_default = _native_default_response
